@@ -34,6 +34,20 @@ type c17Case struct {
 	Pre int `json:"pre,omitempty"`
 	// Debug: the machine is built with Config.DebugLCD set (a legal configuration; the statement holds for it too)
 	Debug bool `json:"debug,omitempty"`
+	// Objs: objects are enabled in LCDC and OAM holds objects that lie on the line (so the renderer reads object
+	// memory during mode 3 of that line); the statement does not depend on what the picture shows
+	Objs bool `json:"objs,omitempty"`
+}
+
+// c17Pattern is the OAM image put there by DMA: every row distinct; with objs, object k lies on the given line.
+func c17Pattern(i, line int, objs bool) uint8 {
+	if objs && i%4 == 0 {
+		return uint8(line + 16 - (i/4)%8)
+	}
+	if objs && i%4 == 1 {
+		return uint8(8 + i)
+	}
+	return uint8(i*7 + i/8*0x21 + 0x13)
 }
 
 // register writes a guest may make while the LCD is off; none of them may re-arm the OAM bug
@@ -157,7 +171,10 @@ func c17Check(l *explore.Local, _ struct{}, c c17Case) *explore.Fail {
 	m := machine.New(machine.ROMOnly(), machine.Opts{DebugLCD: c.Debug})
 	// fill OAM through a DMA transfer (no CPU/OAM-bug interaction): every row distinct
 	for i := 0; i < 160; i++ {
-		m.Map.Write(0xc100+uint16(i), uint8(i*7+i/8*0x21+0x13))
+		m.Map.Write(0xc100+uint16(i), c17Pattern(i, c.Line, c.Objs))
+	}
+	if c.Objs {
+		m.Map.Write(0xff40, 0x93)
 	}
 	m.Map.Write(0xff46, 0xc1)
 	for i := 0; i < 170; i++ {
@@ -237,7 +254,7 @@ func c17Check(l *explore.Local, _ struct{}, c c17Case) *explore.Fail {
 				m.Hardware() // at least one PPU tick has always happened after the switch
 				// the OAM image the reference starts from: what DMA put there (read back while no bug can be armed by the read itself matters not: reads go through PPU-side access)
 				for i := range oam0 {
-					oam0[i] = uint8(i*7 + i/8*0x21 + 0x13)
+					oam0[i] = c17Pattern(i, c.Line, c.Objs)
 				}
 				s2p, s2o, s2i, s2t, s2c, s2m, s2a := *m.P, *m.OAM, *m.I, *m.T, *m.CPU, *m.Map, *m.A
 				for _, ptr := range ptrs {
@@ -296,7 +313,7 @@ func c17Check(l *explore.Local, _ struct{}, c c17Case) *explore.Fail {
 								}
 								f := explore.Failf("OAM altered without a CPU write or DMA: "+state,
 									"%s, line %d tick %d, pointer %04x, program % x: OAM[%d]=%02x, expected %02x", state, c.Line, tick, ptr, code, i, got, exp[i])
-								f.Case = c17Case{Mode: c.Mode, Line: c.Line, From: c.From, To: c.To, Len: len(prog), Tick: tick, Prog: prog, Ptr: ptr, OnFor: c.OnFor, Pre: pre, Debug: c.Debug}
+								f.Case = c17Case{Mode: c.Mode, Line: c.Line, From: c.From, To: c.To, Len: len(prog), Tick: tick, Prog: prog, Ptr: ptr, OnFor: c.OnFor, Pre: pre, Debug: c.Debug, Objs: c.Objs}
 								return f
 							}
 						}
@@ -331,7 +348,7 @@ func init() {
 		if c.Thorough() {
 			n = 2
 		}
-		explore.Product(c.R, "oam-integrity", explore.PartOpt{Bound: fmt.Sprintf("programs of length <= %d (one extra block of length %d on line 1)", n, n+1), Domain: "switch-off at every cycle of lines 0,1,143,144,153; off-on-off; LCD on outside mode 2; switch-off at every cycle of lines 1 and 150 followed by one of 16 register writes (LY, STAT, LYC, LCDC with bit 7 clear, scroll, window, palettes, IF, IE); the LCD switched off at every cycle of lines 1 and 144 on a machine built with DebugLCD; DMA started + pointer instruction at every cycle of line 1 with the LCD on, then LCD off and NOPs until after the transfer"},
+		explore.Product(c.R, "oam-integrity", explore.PartOpt{Bound: fmt.Sprintf("programs of length <= %d (one extra block of length %d on line 1)", n, n+1), Domain: "switch-off at every cycle of lines 0,1,143,144,153; off-on-off; LCD on outside mode 2; the same with objects enabled and eight objects on the line (lines 1, 77, 143); switch-off at every cycle of lines 1 and 150 followed by one of 16 register writes (LY, STAT, LYC, LCDC with bit 7 clear, scroll, window, palettes, IF, IE); the LCD switched off at every cycle of lines 1 and 144 on a machine built with DebugLCD; DMA started + pointer instruction at every cycle of line 1 with the LCD on, then LCD off and NOPs until after the transfer"},
 			func(yield func(c17Case) bool) {
 				for _, line := range []int{0, 1, 143, 144, 153} {
 					for from := 0; from < 114; from += 6 {
@@ -342,6 +359,16 @@ func init() {
 						}
 						for _, onFor := range []int{0, 5, 25} {
 							if !yield(c17Case{Mode: "offonoff", Line: line, From: from, To: from + 6, Len: 1, OnFor: onFor}) {
+								return
+							}
+						}
+					}
+				}
+				// objects enabled and lying on the line: LCD on outside mode 2, and switched off, at every cycle
+				for _, line := range []int{1, 77, 143} {
+					for from := 0; from < 114; from += 6 {
+						for _, mode := range []string{"on", "off"} {
+							if !yield(c17Case{Mode: mode, Line: line, From: from, To: from + 6, Len: 1, Objs: true}) {
 								return
 							}
 						}
